@@ -141,6 +141,10 @@ func readHeader(reader io.ReaderAt) (*bucketToOffset, *indexmeta.Meta, int64, er
 	if err != nil {
 		return nil, nil, 0, fmt.Errorf("failed to read header size: %w", err)
 	}
+	// the largest well-formed header: magic, version, metadata (255 pairs), 65536 prefix entries of 10 bytes
+	if headerSize > 8+8+1+indexmeta.MaxNumKVs*(2+indexmeta.MaxKeySize+indexmeta.MaxValueSize)+8+(math.MaxUint16+1)*10 {
+		return nil, nil, 0, fmt.Errorf("invalid header size: %d", headerSize)
+	}
 	// read header bytes:
 	headerBuf := make([]byte, headerSize)
 	if err := readFullAt(reader, headerBuf, 4); err != nil {
